@@ -292,11 +292,68 @@ fn gen_class_field(rng: &mut Rng, k: usize) -> Pair {
     Pair { kind: "class-field".into(), sugared: module("Sug", &sug), expanded: module("Sug", &format!("{class}{e}")), targets: vec![tgt, holder], env: vec![] }
 }
 
+/// Two notations meeting: the components copied by COMPONENTS OF (written last, the supported position) are
+/// themselves given by a selection type, an instance of a parameterized type, a fixed-type class field or a
+/// constraint with a value reference / named number; includer and included type named to be linked in either order.
+fn gen_combination(rng: &mut Rng, k: usize) -> Pair {
+    let cho = spell(rng, "Cho", k, true);
+    let base = spell(rng, "Base", k, true);
+    let incl = spell(rng, "Incl", k, true);
+    let par = spell(rng, "Par", k, true);
+    let up = spell(rng, "upper", k, false);
+    let upv = 3 + rng.below(60);
+    let cls = format!("{}-CLS-{}", rng.pick(&["A", "Z"]), k);
+    let support = format!(
+        "{cho} ::= CHOICE {{ a INTEGER, b BOOLEAN }}\n{up} INTEGER ::= {upv}\n{par} {{ T }} ::= SEQUENCE {{ p T }}\n{cls} ::= CLASS {{ &id INTEGER UNIQUE, &fix BOOLEAN }}\n"
+    );
+    // (sugared member, expanded member)
+    let pool: Vec<(String, String)> = vec![
+        (format!("x a < {cho}"), "x INTEGER".into()),
+        (format!("x b < {cho}"), "x BOOLEAN".into()),
+        (format!("n INTEGER (0..{up})"), format!("n INTEGER (0..{upv})")),
+        (format!("s OCTET STRING (SIZE (1..{up}))"), format!("s OCTET STRING (SIZE (1..{upv}))")),
+        (format!("f {cls}.&fix"), "f BOOLEAN".into()),
+        (format!("i {cls}.&id"), "i INTEGER".into()),
+        ("plain NULL".into(), "plain NULL".into()),
+    ];
+    let n = 1 + rng.below(3);
+    let mut picked: Vec<(String, String)> = Vec::new();
+    while picked.len() < n {
+        let c = rng.pick(&pool).clone();
+        if !picked.iter().any(|p| p.0.split(' ').next() == c.0.split(' ').next()) {
+            picked.push(c);
+        }
+    }
+    let sug_members: Vec<String> = picked.iter().map(|p| p.0.clone()).collect();
+    let exp_members: Vec<String> = picked.iter().map(|p| p.1.clone()).collect();
+    let (base_s, base_e) = if rng.chance(1, 4) {
+        // the included type is an instance of a parameterized type
+        (format!("{base} ::= {par} {{ BOOLEAN }}\n"), format!("{base} ::= SEQUENCE {{ p BOOLEAN }}\n"))
+    } else {
+        (format!("{base} ::= SEQUENCE {{ {} }}\n", sug_members.join(", ")), format!("{base} ::= SEQUENCE {{ {} }}\n", exp_members.join(", ")))
+    };
+    let copied = if base_s.contains(&par) { "p BOOLEAN".to_string() } else { exp_members.join(", ") };
+    let incl_s = format!("{incl} ::= SEQUENCE {{ y BOOLEAN, COMPONENTS OF {base} }}\n");
+    let incl_e = format!("{incl} ::= SEQUENCE {{ y BOOLEAN, {copied} }}\n");
+    let mut lines = vec![support.clone(), base_s.clone(), incl_s];
+    if rng.chance(1, 2) {
+        lines.reverse();
+    }
+    Pair {
+        kind: "combination:components-of-x-other-notation".into(),
+        sugared: module("Sug", &lines.concat()),
+        expanded: module("Sug", &format!("{support}{base_e}{incl_e}")),
+        targets: vec![incl],
+        env: vec![],
+    }
+}
+
 pub fn gen_pairs(cfg: &RunCfg) -> Vec<Pair> {
     let mut rng = Rng::new(cfg.seed ^ 0xC09);
     let n = cfg.budget(400, 5000);
     (0..n)
-        .map(|k| match k % 5 {
+        .map(|k| match k % 6 {
+            5 => gen_combination(&mut rng, k),
             0 => gen_value_refs(&mut rng, k),
             1 => gen_components_of(&mut rng, k),
             2 => gen_parameterized(&mut rng, k),
@@ -329,7 +386,7 @@ fn fields_of(items: &[(String, String)], name: &str) -> Option<Vec<String>> {
 pub fn run(cfg: &RunCfg) -> Report {
     let mut rep = Report::new(
         "C09",
-        "pairs (sugared module, hand-expanded module): value references through chains of 1..4 and named numbers (own type and parent type) in value / SIZE constraints at top level and in components; COMPONENTS OF in environments of 2..5 SEQUENCEs (tail position and anywhere, with and without extension markers, chains, occasional cycles); parameterized types with 1..3 type / value parameters instantiated 1..3 times; selection types at top level and in a component, of alternatives whose constraints refer to values / named numbers; fixed-type class field types at top level and in components. Referenced names are spelled to sort before and after the referencing name and definitions are written before or after their use. Oracle: the items of every target definition are token-identical in the two compilations. Model tie (COMPONENTS OF): field order of the generated struct = members of the Lean linker model; spec = X.680 25.5 expansion",
+        "pairs (sugared module, hand-expanded module): value references through chains of 1..4 and named numbers (own type and parent type) in value / SIZE constraints at top level and in components; COMPONENTS OF in environments of 2..5 SEQUENCEs (tail position and anywhere, with and without extension markers, chains, occasional cycles); parameterized types with 1..3 type / value parameters instantiated 1..3 times; selection types at top level and in a component, of alternatives whose constraints refer to values / named numbers; fixed-type class field types at top level and in components; combinations (the components copied by COMPONENTS OF are given by selection types / value references / class fields / an instance of a parameterized type). Referenced names are spelled to sort before and after the referencing name and definitions are written before or after their use. Oracle: the items of every target definition are token-identical in the two compilations. Model tie (COMPONENTS OF): field order of the generated struct = members of the Lean linker model; spec = X.680 25.5 expansion",
     );
     let pairs: Vec<Pair> = if let Some(r) = &cfg.replay {
         vec![Pair::from_json(r.get("case").unwrap_or(r))]
